@@ -35,7 +35,7 @@ CfgTwo   == {MmaeC(1), IodC(2)}
 CfgMmae  == {MmaeC(1)}
 CfgIod   == {IodC(1), IodC(2)}
 CfgIodOff == {IodOff(1), MmaeIodOff}
-CfgSim   == {Plain(1), Plain(2), MmaeC(1), MmaeC(2), IodC(1), IodC(2), NoDet}
+CfgSim   == {Plain(1), Plain(2), MmaeC(1), IodC(1), IodC(2), NoDet}   \* (MMAE reads stored estimates of every step: output every step)
 
 T1 == {"t1"}
 T2 == {"t1", "t2"}
